@@ -302,6 +302,29 @@ def run(ctx):
                "Close messages are offered with try_send: the loop keeps polling the thread counter" if (not blocking and nonblock)
                else "the wait loop uses the BLOCKING flume::Sender::send on the bounded worker queue: when the queue is full and the last worker exits between the counter check and the send, nobody receives any more and drop never returns (observed as hanging drops under CPU load)",
                dd.loc(blocking[0]) if blocking else "")
+        # ... and a FULL queue is emptied: a worker that is itself sending into the queue (re-queued compaction, flush wake-up) blocks
+        # on a queue full of close messages, never receives one, and the counter never reaches zero
+        ts = [b for b, t in dd.calls() if A.cname(t).endswith("Sender::<T>::try_send") and A.in_cycle(dd, b)]
+        okf = False
+        for b in ts:
+            rf = A.result_flow(dd, b)
+            drains_in_loop = [x for x, t in dd.calls() if A.cname(t).endswith("Receiver::<T>::drain") and A.in_cycle(dd, x)]
+            if rf.err_blocks and drains_in_loop and any(d in A.reach(dd, rf.err_blocks) for d in drains_in_loop):
+                okf = True
+            else:
+                # `if try_send(..).is_err() { drain }`
+                ie = [x for x, t in dd.calls() if A.cname(t).endswith(("Result::<T, E>::is_err", "Result::<T, E>::is_ok")) and A.in_cycle(dd, x)]
+                for c in ie:
+                    sw = A.switch_after_call(dd, c)
+                    if sw is None:
+                        continue
+                    z_, t_ = A.bool_edges(dd, sw)
+                    failed = z_ if A.cname(dd.term(c)).endswith("is_ok") else t_
+                    if any(d in A.reach(dd, list(failed), avoid=ts) for d in drains_in_loop):
+                        okf = True
+        ctx.ob("R-C17.4", dd, "wait-loop-makes-room-in-a-full-queue", okf,
+               "when the close message does not fit, the wait loop drains the queue" if okf else
+               "the wait loop ignores a full queue: a worker blocked in its own send into that queue (worker 0 re-queues compaction requests) never gets a close message and the drop of the last handle never returns")
         snd = snd + nonblock
         for name, bs in clears.items():
             okc = bool(bs) and all(A.dominates(dd, b, dd.return_blocks()[0]) for b in bs[:1])
